@@ -1882,6 +1882,202 @@ def _capture_worker(chunk, st: Stats, scratch, cis, amax):
 
 
 # =====================================================================================================
+# (6b) capture STRUCTURE: one writer, every well-bracketed history of begin-capture / write / end-capture(+commit)
+#      (sequential and nested captures, writes outside a capture).  Reference model: a stack of buffers; an ended capture
+#      is committed at once through the documented flush of its mechanism; the files hold the writer's records in
+#      write order, nothing lost, and nothing reaches a file while the writer's OUTERMOST capture is still active.
+# =====================================================================================================
+NEST_OPS = ("W", "B", "E")
+NEST_MECHS = ("use_mux", "begin_end")            # logmux.set_mux/reset_mux(+use_mux) | orchestrator.logging._begin/_end_log_capture
+NEST_COMMITS = ("flush", "stager", "stager1")    # commit of the OUTERMOST capture; an inner capture commits via logmux.flush
+NEST_LAYOUTS = ((REFLECTION,), ("scheduler.jsonl", "zz_custom.jsonl"))
+NEST_DEPTH = 3
+
+
+def nest_histories(nmax, depth=NEST_DEPTH):
+    """every complete well-bracketed string over W/B/E of <= nmax steps with >= 1 capture and >= 1 write"""
+    out = []
+
+    def rec(h, d):
+        if d == 0 and "B" in h and "W" in h:
+            out.append(tuple(h))
+        if len(h) >= nmax:
+            return
+        for op in NEST_OPS:
+            nd = d + (1 if op == "B" else -1 if op == "E" else 0)
+            if nd < 0 or nd > depth or nd > nmax - len(h) - 1:
+                continue
+            h.append(op)
+            rec(h, nd)
+            h.pop()
+    rec([], 0)
+    return out
+
+
+def _nest_lines(d, files):
+    got = {}
+    for f in files:
+        p = os.path.join(d, f)
+        if os.path.exists(p):
+            got[f] = _read_jsonl(p)[1]
+        else:
+            got[f] = []
+    return got
+
+
+def _nest_run(hist, mech, entry, commit, layout, ci, root):
+    d = _fresh_dir(root, "n")
+    old_dir = os.environ.get("CLEMATIS_LOG_DIR")
+    os.environ["CLEMATIS_LOG_DIR"] = d
+    old_ci = os.environ.get("CI")
+    _set_ci(ci)
+    try:
+        return _nest_run_in(hist, mech, entry, commit, layout, ci, d)
+    finally:
+        _set_ci(old_ci)
+        if old_dir is None:
+            os.environ.pop("CLEMATIS_LOG_DIR", None)
+        else:
+            os.environ["CLEMATIS_LOG_DIR"] = old_dir
+        shutil.rmtree(d, ignore_errors=True)
+
+
+def _nest_run_in(hist, mech, entry, commit, layout, ci, d):
+    import clematis.engine.util.logmux as lmux
+    from clematis.engine.orchestrator import logging as ologging
+    api = {"io": clog.append_jsonl, "orch": ologging.append_jsonl}[entry]
+    ci_on = isinstance(ci, str) and ci.lower() == "true"
+    desc = "capture structure %s (%s, append via %s, outermost commit %s, streams %s, CI=%r)" % (
+        "".join(hist), mech, entry, commit, "+".join(layout), ci)
+    expected = {f: [] for f in layout}
+    stack = []                      # [(mux, token)]
+    escaped = None
+    nw = 0
+    maxdepth = 0
+    info = {"buffered": 0, "depth": 0}
+    try:
+        for i, op in enumerate(hist):
+            if op == "W":
+                f = layout[nw % len(layout)]
+                rec = dict(_cap_base(f), step=nw, queued=["q"] * (nw % 3))
+                nw += 1
+                expected[f].append(copy.deepcopy(rec))
+                api(f, rec)
+            elif op == "B":
+                if mech == "use_mux":
+                    mux = lmux.LogMux()
+                    token = lmux.set_mux(mux)
+                else:
+                    mux, token = ologging._begin_log_capture()
+                stack.append((mux, token))
+                maxdepth = max(maxdepth, len(stack))
+            else:
+                mux, token = stack.pop()
+                pairs = mux.dump()
+                info["buffered"] += len(pairs)
+                if mech == "use_mux":
+                    lmux.reset_mux(token)
+                else:
+                    ologging._end_log_capture(token)
+                if stack or commit == "flush":
+                    lmux.flush(pairs)           # inside an enclosing capture the commit re-enters the capture-aware appender
+                else:
+                    _cap_flush_staged(pairs, BIG if commit == "stager" else 1, ologging._append_unbuffered)
+            if stack:
+                # the writer's outermost capture is active: its records (and those of ended inner captures) are deferred
+                on_disk = _nest_lines(d, layout)
+                # what may be on disk: records written / committed before the currently outermost capture began
+                allowed = info.get("disk_before", {})
+                for f in layout:
+                    if escaped is None and len(on_disk[f]) != allowed.get(f, 0):
+                        escaped = ("after step %d (%s) %s holds %d lines, %d were on disk when the writer's outermost active "
+                                   "capture began" % (i, op, f, len(on_disk[f]), allowed.get(f, 0)))
+            else:
+                info["disk_before"] = {f: len(v) for f, v in _nest_lines(d, layout).items()}
+    except HarnessError:
+        raise
+    except Exception as e:
+        info["depth"] = maxdepth
+        return [("capture-nested:raises:%s" % type(e).__name__, desc + " raised %r" % (e,))], "raises", info
+    finally:
+        while stack:                     # leave no capture active in this worker process, whatever the engine did
+            _, token = stack.pop()
+            try:
+                lmux.LOG_MUX.reset(token)
+            except Exception:
+                pass
+        try:
+            if lmux.LOG_MUX.get() is not None:
+                lmux.LOG_MUX.set(None)
+        except Exception:
+            pass
+    info["depth"] = maxdepth
+    try:
+        got = _nest_lines(d, layout)
+    except Exception as e:
+        return [("capture-nested:malformed-file", desc + ": %r" % (e,))], "malformed", info
+    for f in layout:
+        want = expected[f]
+        g = got[f]
+        if len(g) != len(want):
+            return [("capture-nested:lost-or-duplicated", desc + ": %d records appended to %s, %d lines in the file (steps %r)"
+                     % (len(want), f, len(g), [x.get("step") if isinstance(x, dict) else x for x in g]))], "lost", info
+        for k, (w, x) in enumerate(zip(want, g)):
+            if norm_clauses(f, w, x, ci_on):
+                steps = [y.get("step") if isinstance(y, dict) else None for y in g]
+                if sorted(s for s in steps if s is not None) == [y["step"] for y in want]:
+                    return [("capture-nested:writer-order-broken", desc + ": the writer appended steps %r to %s, the file holds them as %r"
+                             % ([y["step"] for y in want], f, steps))], "reordered", info
+                return [("capture-nested:line-differs-from-appended-record", desc + ": record #%d of %s was %s, the file holds %s"
+                         % (k, f, Jo(w), Jo(x)))], "changed", info
+    if escaped is not None:
+        # the files are right in the end, but a record by-passed the active capture (io/log.py, logmux.py: buffered while a mux is active)
+        return [("capture-nested:written-through-while-capture-active", desc + ": " + escaped)], "escaped", info
+    return [], ("ok-nested" if maxdepth >= 2 else "ok-flat"), info
+
+
+def check_nest(case):
+    own = tempfile.mkdtemp(prefix="c16n", dir="/dev/shm" if os.path.isdir("/dev/shm") else None)
+    try:
+        return _nest_run(tuple(case["hist"]), case["mech"], case["entry"], case["commit"], tuple(case["layout"]), case["ci"], own)[0]
+    finally:
+        shutil.rmtree(own, ignore_errors=True)
+
+
+def _nest_worker(chunk, st: Stats, scratch, cis):
+    d = os.path.join(scratch, "nest-%d" % os.getpid())
+    os.makedirs(d, exist_ok=True)
+    try:
+        for hist in chunk:
+            for mech in NEST_MECHS:
+                for entry in CAP_ENTRIES:
+                    for commit in NEST_COMMITS:
+                        for layout in NEST_LAYOUTS:
+                            for ci in cis:
+                                res, outcome, info = _nest_run(hist, mech, entry, commit, layout, ci, d)
+                                st.add("states")
+                                st.add("validated")
+                                st.add("nest_cases")
+                                st.add("transitions", len(hist))
+                                if info["buffered"]:
+                                    st.add("nest_buffered")
+                                if info["depth"] >= 2:
+                                    st.add("nest_cases_nested")
+                                    st.add("nontrivial")
+                                st.distinct("outcomes", ("nest", outcome, mech, commit, min(info["depth"], 2)))
+                                if res:
+                                    case = {"kind": "capture-nest", "hist": list(hist), "mech": mech, "entry": entry, "commit": commit,
+                                            "layout": list(layout), "ci": ci}
+                                    for sig, what in res:
+                                        _viol(st, sig, what, case)
+        if chunk:
+            st.sample({"kind": "capture-nest", "hist": list(chunk[0]), "mech": "use_mux", "entry": "io", "commit": "flush",
+                       "layout": list(NEST_LAYOUTS[0]), "ci": "true"})
+    finally:
+        shutil.rmtree(d, ignore_errors=True)
+
+
+# =====================================================================================================
 # (7) compaction by concurrent same-process writers: every schedule (<= bound preemptions) of the real threads
 # =====================================================================================================
 CONC_LISTS = {"s": [1], "m": [4, 6], "l": [5, 6, 7, 4, 1]}       # indices into RW_RECS: short / medium / long payloads
@@ -2552,6 +2748,14 @@ def run(run: Run) -> None:
     run.pmap(_capture_worker, list(capture_histories(cmax)), extra=(run.scratch, cis, camax))
     if not run.n.get("capture_buffered"):
         raise HarnessError("seam bypassed: no append was buffered by an active LogMux (capture leg would be vacuous)")
+    # (6b) capture structure: sequential / nested captures of one writer
+    nlen = 8 if th else 6
+    run.notes["capture_structure_max_steps"] = nlen
+    nhist = nest_histories(nlen)
+    run.notes["capture_structure_histories"] = len(nhist)
+    run.pmap(_nest_worker, nhist, extra=(run.scratch, cis))
+    if not run.n.get("nest_buffered") or not run.n.get("nest_cases_nested"):
+        raise HarnessError("seam bypassed: no nested capture buffered an append (capture-structure leg would be vacuous)")
     # (7) concurrent compaction
     ccases = conc_cases(th)
     run.notes["conc_programs"] = len(ccases)
@@ -2600,6 +2804,12 @@ def run(run: Run) -> None:
         "LogMux via use_mux + logmux.flush; LogMux via _begin/_end_log_capture + LogStager + unbuffered writer with limit 32 MiB and limit 1): "
         "the file holds, in order, the value every record had when it was appended (identity-normalised under CI); "
         "non-trivial = buffered path and the dict updated after an append; "
+        "capture-structure: ONE writer x every complete well-bracketed history of <=%d steps over {write the next record, begin a capture, "
+        "end the innermost capture and commit it at once} (sequential captures, captures nested <=3 deep, writes outside any capture; %d "
+        "histories) x 2 capture mechanisms (logmux.set_mux/reset_mux; _begin/_end_log_capture) x 2 append entry points x commit of the "
+        "outermost capture via logmux.flush / LogStager limit 32 MiB / limit 1 (an inner capture commits via logmux.flush, i.e. through "
+        "the capture-aware appender) x 1 or 2 streams x CI values: every file holds the writer's records in write order, none lost or "
+        "duplicated, and no file grows while the writer's outermost capture is active; non-trivial = nesting depth >= 2; "
         "rewrite-conc: %d programs of 2%s same-process threads calling rewrite_jsonl (same target with short/long, long/short, equal-length "
         "record lists; two targets in one directory; file absent/stale%s) x EVERY schedule with <= 1%s preemptions at line granularity "
         "inside clematis/io/atomic.py: no call fails, each target ends as exactly one writer's complete record list; non-trivial = >=1 preemption; "
@@ -2612,7 +2822,7 @@ def run(run: Run) -> None:
         "the reference model (live record list + generations) after EVERY step; non-trivial = an append to X after its file was replaced or renamed"
         % ("-2" if th else "", " / 5 KiB" if th else "", "4096/8192/131072" if th else "4096/8192", nmax, nfiles,
            nmax - 1, nmax - 2, ramax, camax, rmax, depth,
-           cmax, "/".join(repr(c) for c in cis), len(ccases), "-3" if th else "",
+           cmax, "/".join(repr(c) for c in cis), nlen, len(nhist), len(ccases), "-3" if th else "",
            "; the t1.jsonl two-writer programs also with a reader thread whose one whole-file read is placed by the schedule" if th else "",
            " (<= 2 for the two-writer programs on custom.jsonl and one two-target program)" if th else "",
            len(acc), "-3" if th else "", " (<= 2 for four two-thread programs)" if th else "", lclen))
@@ -2626,6 +2836,9 @@ def run(run: Run) -> None:
     run.assume("capture: between append and commit-phase flush the producer only rebinds / adds / removes TOP-LEVEL keys of its dict "
                "(new value objects); in-place edits of nested lists/dicts of an already appended record and the raw "
                "logmux.write_or_buffer hand-over are outside the alphabet (the statement is silent on them)")
+    run.assume("capture-structure: captures of one writer are begun and ended LIFO in one thread / one context; an ended capture is committed "
+               "immediately (dump, end, flush) - a commit deferred past later writes of the same writer, captures ended out of order and "
+               "an inner capture committed straight to disk by the unbuffered writer are not in the alphabet")
     run.assume("rewrite-conc: writers are threads of one process, a thread switch can happen before any source line of "
                "clematis/io/atomic.py (library calls made from one line are atomic w.r.t. the schedule); schedules with more "
                "preemptions than the bound and concurrent writer PROCESSES are not explored")
@@ -2668,6 +2881,8 @@ def replay(case):
         return check_rotate(case)
     if k == "capture":
         return check_capture(case)
+    if k == "capture-nest":
+        return check_nest(case)
     if k in ("rewrite-conc", "append-conc"):
         return check_conc(case)
     if k == "lifecycle":
